@@ -20,13 +20,13 @@
      XTranspose  transpose
      XPermute    permute_dims
      XReduce     sum, max, min, logsumexp (value along an axis; mean = sum / n; softmax, log_softmax,
-                 softmax_cross_entropy are compositions of XReduce, XBroadcast and elementwise operators
-                 in operator_impl / functions_impl)
+                 softmax_cross_entropy are the programs x_softmax, x_log_softmax, x_softmax_cross_entropy(_ids)
+                 below: compositions of XReduce, XBroadcast, XPick and elementwise operators, as in tensor_funcs.cc)
      XMatmul     matmul
      XConv2d     conv2d
      XPool2d     max_pool2d
-   NOT covered: reshape / flatten (identity movement with a shape attribute - the kernel is a copy,
-   trivially per-sample, but the language has no shape-attribute node), argmax / argmin (integer
+     XReshape    reshape, flatten, copy (the kernel is a plain copy)
+   NOT covered: argmax / argmin (integer
    results, outside the Tensor value type), dropout (random mask), the in-place `+=`, and the batch
    namespace batch::{sum, mean, normalize, concat, slice, pick, split}, which is exactly the set
    that does NOT satisfy the law (batch_*_moves below). *)
@@ -75,7 +75,8 @@ Section ProgramExt.
   | XReduce (f : list T -> T) (dim : nat) (e : xexpr)          (* f = the per-slice fold: sum, max, min, logsumexp *)
   | XMatmul (e1 e2 : xexpr)
   | XConv2d (p0 p1 s0 s1 d0 d1 : nat) (e w : xexpr)
-  | XPool2d (f : list T -> T) (w0 w1 p0 p1 s0 s1 : nat) (e : xexpr).
+  | XPool2d (f : list T -> T) (w0 w1 p0 p1 s0 s1 : nat) (e : xexpr)
+  | XReshape (dims : list nat) (e : xexpr).                    (* reshape, flatten, copy: a plain copy *)
 
   (* induction principle with the hypothesis for every operand of concat *)
   Section XInd.
@@ -95,6 +96,7 @@ Section ProgramExt.
     Hypothesis HMatmul : forall e1 e2, P e1 -> P e2 -> P (XMatmul e1 e2).
     Hypothesis HConv2d : forall p0 p1 s0 s1 d0 d1 e w, P e -> P w -> P (XConv2d p0 p1 s0 s1 d0 d1 e w).
     Hypothesis HPool2d : forall f w0 w1 p0 p1 s0 s1 e, P e -> P (XPool2d f w0 w1 p0 p1 s0 s1 e).
+    Hypothesis HReshape : forall dims e, P e -> P (XReshape dims e).
 
     Fixpoint xexpr_induction (e : xexpr) : P e :=
       match e with
@@ -119,6 +121,7 @@ Section ProgramExt.
       | XMatmul e1 e2 => HMatmul e1 e2 (xexpr_induction e1) (xexpr_induction e2)
       | XConv2d p0 p1 s0 s1 d0 d1 e1 w => HConv2d p0 p1 s0 s1 d0 d1 e1 w (xexpr_induction e1) (xexpr_induction w)
       | XPool2d f w0 w1 p0 p1 s0 s1 e1 => HPool2d f w0 w1 p0 p1 s0 s1 e1 (xexpr_induction e1)
+      | XReshape dims e1 => HReshape dims e1 (xexpr_induction e1)
       end.
   End XInd.
 
@@ -157,6 +160,8 @@ Section ProgramExt.
     | XPool2d f w0 w1 p0 p1 s0 s1 e1 =>
         let r := xeval e1 in
         (pool2d_shape (fst r) w0 w1 p0 p1 s0 s1, pool2d_val T zero f (fst r) w0 w1 p0 p1 s0 s1 (snd r))
+    | XReshape dims e1 =>
+        let r := xeval e1 in (reshape_shape (fst r) dims, copy_val T zero (tsize (fst r)) (snd r))
     end.
 
   (* ---- accepted by the front end with minibatch size B: every operand batch is 1 or B, and the
@@ -181,6 +186,7 @@ Section ProgramExt.
     | XConv2d p0 p1 s0 s1 d0 d1 e1 w =>
         xwf B e1 /\ xwf B w /\ conv2d_ok (fst (xeval e1)) (fst (xeval w)) p0 p1 s0 s1 d0 d1
     | XPool2d _ w0 w1 p0 p1 s0 s1 e1 => xwf B e1 /\ pool2d_ok (fst (xeval e1)) w0 w1 p0 p1 s0 s1
+    | XReshape dims e1 => xwf B e1 /\ reshape_ok (fst (xeval e1)) dims
     end.
 
   (* ---- the same program on the b-th samples alone: every leaf replaced by its sample b (or by
@@ -202,6 +208,7 @@ Section ProgramExt.
     | XMatmul e1 e2 => XMatmul (xsample b e1) (xsample b e2)
     | XConv2d p0 p1 s0 s1 d0 d1 e1 w => XConv2d p0 p1 s0 s1 d0 d1 (xsample b e1) (xsample b w)
     | XPool2d f w0 w1 p0 p1 s0 s1 e1 => XPool2d f w0 w1 p0 p1 s0 s1 (xsample b e1)
+    | XReshape dims e1 => XReshape dims (xsample b e1)
     end.
 
   Lemma xwf_all B es : fold_right (fun e1 acc => xwf B e1 /\ acc) True es <-> Forall (xwf B) es.
@@ -230,7 +237,7 @@ Section ProgramExt.
     intro HB. unfold good.
     induction e as [s v|f e IH|op e1 e2 IH1 IH2|op e1 k IH1 IH2|dim off n e IH|ids dim e IH|dim es IH
                    |dim size e IH|dim e IH|e IH|perm e IH|f dim e IH|e1 e2 IH1 IH2
-                   |p0 p1 s0 s1 d0 d1 e w IH1 IH2|f w0 w1 p0 p1 s0 s1 e IH] using xexpr_induction;
+                   |p0 p1 s0 s1 d0 d1 e w IH1 IH2|f w0 w1 p0 p1 s0 s1 e IH|dims e IH] using xexpr_induction;
       cbn [xwf xeval fst snd].
     - tauto.
     - intro H. destruct (IH H) as [H0 [H1 H2]]. split; [exact H0|split; [exact H1|apply un_eval_length]].
@@ -275,6 +282,10 @@ Section ProgramExt.
     - intros [Hw Hok]. destruct (IH Hw) as [W [Bx _]].
       split; [apply twf_dims3; [lia|lia|apply tget_pos; exact W|apply W]|].
       split; [exact Bx|apply pool2d_val_length; assumption].
+    - intros [Hw [Hp Hv]]. destruct (IH Hw) as [W [Bx _]].
+      split; [split; [exact Hp|apply W]|]. split; [exact Bx|].
+      unfold copy_val. rewrite mov_eval_length, !tsize_eq. unfold tvolume at 2, reshape_shape. cbn [tdims tbatch].
+      rewrite Hv. reflexivity.
   Qed.
 
   Notation spair := (sample_pair T).
@@ -318,7 +329,7 @@ Section ProgramExt.
     intros HB Hb.
     induction e as [s v|f e IH|op e1 e2 IH1 IH2|op e1 k IH1 IH2|dim off n e IH|ids dim e IH|dim es IH
                    |dim size e IH|dim e IH|e IH|perm e IH|f dim e IH|e1 e2 IH1 IH2
-                   |p0 p1 s0 s1 d0 d1 e w IH1 IH2|f w0 w1 p0 p1 s0 s1 e IH] using xexpr_induction;
+                   |p0 p1 s0 s1 d0 d1 e w IH1 IH2|f w0 w1 p0 p1 s0 s1 e IH|dims e IH] using xexpr_induction;
       intro Hw; cbn [xwf] in Hw.
     - reflexivity.
     - (* unary elementwise *)
@@ -440,6 +451,11 @@ Section ProgramExt.
       apply (unary_case (fun s => pool2d_shape s w0 w1 p0 p1 s0 s1)
                (fun s => pool2d_val T zero f s w0 w1 p0 p1 s0 s1) _ _ b B Bx Hb eq_refl eq_refl).
       intros b' Hb'. apply pool2d_sample; assumption.
+    - (* reshape / flatten / copy *)
+      destruct Hw as [Hw Hok]. destruct (xeval_good B e HB Hw) as [W [Bx _]].
+      cbn [xsample xeval]. rewrite (IH Hw). cbn [sample_pair fst snd].
+      apply (unary_case (fun s => reshape_shape s dims) (fun s => copy_val T zero (tsize s)) _ _ b B Bx Hb eq_refl eq_refl).
+      intros b' Hb'. apply reshape_sample; assumption.
   Qed.
 End ProgramExt.
 
@@ -472,6 +488,21 @@ Section Corollaries.
   Corollary batch_law_program_ext_shape B b e : 0 < B -> b < B -> xw B e ->
     fst (xe (xs b e)) = unb (fst (xe e)).
   Proof. intros HB Hb Hw. rewrite (batch_law_program_ext T zero add mul B b e HB Hb Hw). reflexivity. Qed.
+
+  (* batch sizes other than equal-or-1 are rejected: the results of two accepted programs that
+     feed one operator have compatible batches (Shape::has_compatible_batch) ... *)
+  Corollary accepted_batches_compatible B e1 e2 : 0 < B -> xw B e1 -> xw B e2 ->
+    tbatch (fst (xe e1)) = tbatch (fst (xe e2)) \/ tbatch (fst (xe e1)) = 1 \/ tbatch (fst (xe e2)) = 1.
+  Proof.
+    intros HB H1 H2. destruct (xeval_good T zero add mul B e1 HB H1) as [_ [A1 _]].
+    destruct (xeval_good T zero add mul B e2 HB H2) as [_ [A2 _]]. lia.
+  Qed.
+
+  (* ... and no minibatch size B accepts operands with two different batch sizes > 1 *)
+  Corollary mixed_batches_rejected op s1 v1 s2 v2 B :
+    1 < tbatch s1 -> 1 < tbatch s2 -> tbatch s1 <> tbatch s2 ->
+    ~ xw B (XBin T op (XLeaf T s1 v1) (XLeaf T s2 v2)).
+  Proof. intros L1 L2 Hne H. cbn [xwf] in H. destruct H as [[_ [A1 _]] [[_ [A2 _]] _]]. lia. Qed.
 
   (* ---- the language of ProofsBilinear is the elementwise fragment ---- *)
   Fixpoint embed (e : expr T) : xexpr T :=
@@ -510,6 +541,33 @@ Section Corollaries.
     - intros [H1 [H2 H3]] [L1 L2]. rewrite !embed_eval. repeat split; auto.
   Qed.
 
+  (* ---- composite functions of tensor_funcs.cc / operator_impl.cc are programs of the language
+     (sub, neg, exp_, mulop: the elementwise scalar functions; lse, sum: the per-slice folds; n = x.shape()[dim]) ---- *)
+  Definition x_log_softmax (sub : T -> T -> T) (lse : list T -> T) (dim n : nat) (e : xexpr T) : xexpr T :=
+    XBin T sub e (XBroadcast T dim n (XReduce T lse dim e)).       (* x - broadcast(logsumexp(x, dim), dim, n) *)
+  Definition x_softmax (exp_ : T -> T) sub lse dim n (e : xexpr T) : xexpr T :=
+    XUn T exp_ (x_log_softmax sub lse dim n e).
+  Definition x_softmax_cross_entropy (neg : T -> T) (mulop : T -> T -> T) (sum : list T -> T) sub lse dim n
+             (e t : xexpr T) : xexpr T :=
+    XUn T neg (XReduce T sum dim (XBin T mulop t (x_log_softmax sub lse dim n e))).
+  Definition x_softmax_cross_entropy_ids (neg : T -> T) sub lse dim n (ids : list nat) (e : xexpr T) : xexpr T :=
+    XPick T ids dim (XUn T neg (x_log_softmax sub lse dim n e)).
+
+  (* their per-sample programs are the same composites on the per-sample operands *)
+  Lemma x_softmax_sample b exp_ sub lse dim n e :
+    xs b (x_softmax exp_ sub lse dim n e) = x_softmax exp_ sub lse dim n (xs b e).
+  Proof. reflexivity. Qed.
+
+  Lemma x_softmax_cross_entropy_sample b neg mulop sum sub lse dim n e t :
+    xs b (x_softmax_cross_entropy neg mulop sum sub lse dim n e t)
+    = x_softmax_cross_entropy neg mulop sum sub lse dim n (xs b e) (xs b t).
+  Proof. reflexivity. Qed.
+
+  Lemma x_softmax_cross_entropy_ids_sample b neg sub lse dim n ids e :
+    xs b (x_softmax_cross_entropy_ids neg sub lse dim n ids e)
+    = x_softmax_cross_entropy_ids neg sub lse dim n [nth (bidx (length ids) b) ids 0] (xs b e).
+  Proof. reflexivity. Qed.
+
   (* ================================================================== only batch::* move data across samples *)
   Definition is_leaf (e : xexpr T) : Prop := match e with XLeaf _ _ _ => True | _ => False end.
 
@@ -518,7 +576,7 @@ Section Corollaries.
     match e with
     | XLeaf _ _ _ => False
     | XUn _ _ e1 | XSlice _ _ _ _ e1 | XPick _ _ _ e1 | XBroadcast _ _ _ e1 | XFlip _ _ e1 | XTranspose _ e1
-    | XPermute _ _ e1 | XReduce _ _ _ e1 | XPool2d _ _ _ _ _ _ _ _ e1 => is_leaf e1
+    | XPermute _ _ e1 | XReduce _ _ _ e1 | XPool2d _ _ _ _ _ _ _ _ e1 | XReshape _ _ e1 => is_leaf e1
     | XBin _ _ e1 e2 | XScal _ _ e1 e2 | XMatmul _ e1 e2 | XConv2d _ _ _ _ _ _ _ e1 e2 => is_leaf e1 /\ is_leaf e2
     | XConcat _ _ es => Forall is_leaf es
     end.
